@@ -192,8 +192,32 @@ func (p Piece) YAML(st YAMLStyle) []byte {
 		anchors[v] = a
 		return "&" + a + " " + jstr(v)
 	}
+	// Anchors: a list item that is repeated exactly later on gets an anchor, the repeats are aliases of the whole item
+	itemKey := func(in Instance) string {
+		k, _ := json.Marshal(in)
+		return string(k)
+	}
+	repeats, itemAnchor := map[string]int{}, map[string]string{}
+	if st.Anchors {
+		for _, in := range p.Inst {
+			repeats[itemKey(in)]++
+		}
+	}
 	for _, in := range p.Inst {
 		first := true
+		if st.Anchors {
+			k := itemKey(in)
+			if a, ok := itemAnchor[k]; ok {
+				b.WriteString("- *" + a + "\n")
+				continue
+			}
+			if repeats[k] > 1 {
+				a := fmt.Sprintf("i%d", len(itemAnchor)+1)
+				itemAnchor[k] = a
+				b.WriteString("- &" + a + "\n")
+				first = false
+			}
+		}
 		item := func(s string) {
 			if first {
 				b.WriteString("- " + s + "\n")
@@ -624,6 +648,47 @@ type TextOpts struct {
 	Sep        string // between instances
 	UnicodeAcc bool   // write accidentals of roots and basses with the unicode signs
 	ZeroPad    bool   // write the numerals of durations, bpm and meter with leading zeros
+	// DupSettings states every setting (key, bpm, mtr, vel) twice inside its braces, first with another valid value:
+	// the entry stated last is the one that counts
+	DupSettings bool
+}
+
+// dupSettings puts an overridden twin in front of every setting.
+func dupSettings(pairs [][2]string, on bool) [][2]string {
+	if !on {
+		return pairs
+	}
+	var out [][2]string
+	for _, kv := range pairs {
+		other := ""
+		switch kv[0] {
+		case "key":
+			other = "G"
+			if kv[1] == "G" {
+				other = "Dm"
+			}
+		case "bpm":
+			other = "77"
+			if strings.TrimLeft(kv[1], "0") == "77" {
+				other = "78"
+			}
+		case "mtr":
+			other = "5/8"
+			if strings.Contains(kv[1], "5") {
+				other = "7/16"
+			}
+		case "vel":
+			other = "pp"
+			if kv[1] == "pp" {
+				other = "ff"
+			}
+		}
+		if other != "" {
+			out = append(out, [2]string{kv[0], other})
+		}
+		out = append(out, kv)
+	}
+	return out
 }
 
 func uni(s string, on bool) string {
@@ -675,7 +740,7 @@ func (p Piece) DegreeTextPiece(o TextOpts) (string, bool) {
 			b.WriteString("R")
 		}
 		b.WriteString(ValuesTextPad(in.Values, o.ZeroPad))
-		b.WriteString(MetaText(in.MetaPairsPad(o.ZeroPad)))
+		b.WriteString(MetaText(dupSettings(in.MetaPairsPad(o.ZeroPad), o.DupSettings)))
 		parts = append(parts, b.String())
 	}
 	sep := o.Sep
@@ -721,7 +786,7 @@ func (p Piece) SyllableTextPiece(startKey string, o TextOpts) (string, bool) {
 			b.WriteString("R")
 		}
 		b.WriteString(ValuesTextPad(in.Values, o.ZeroPad))
-		b.WriteString(MetaText(in.MetaPairsPad(o.ZeroPad)))
+		b.WriteString(MetaText(dupSettings(in.MetaPairsPad(o.ZeroPad), o.DupSettings)))
 		parts = append(parts, b.String())
 	}
 	sep := o.Sep
@@ -1004,7 +1069,40 @@ func RandPiece(r *rand.Rand, o GenOpts) Piece {
 		}
 		p.Inst = append(p.Inst, in)
 	}
+	// a bar that comes back: a later instance repeats an earlier one exactly (written as an alias of the earlier
+	// list item by the Anchors style)
+	if len(p.Inst) >= 3 && r.Intn(4) == 0 {
+		j := r.Intn(len(p.Inst) - 1)
+		k := j + 1 + r.Intn(len(p.Inst)-j-1)
+		p.Inst[k] = p.Inst[j].Clone()
+	}
 	return p
+}
+
+// Clone is a deep copy.
+func (in Instance) Clone() Instance {
+	out := in
+	if in.Chord != nil {
+		c := *in.Chord
+		if c.Bass != nil {
+			b := *c.Bass
+			c.Bass = &b
+		}
+		c.Semis = append([]int(nil), c.Semis...)
+		out.Chord = &c
+	}
+	out.Values = append([]Frac(nil), in.Values...)
+	if in.Meter != nil {
+		m := *in.Meter
+		out.Meter = &m
+	}
+	if in.Meta != nil {
+		out.Meta = map[string]string{}
+		for k, v := range in.Meta {
+			out.Meta[k] = v
+		}
+	}
+	return out
 }
 
 // RandBPM is log-uniform over the representable range 4..60,000,000.
